@@ -3,9 +3,12 @@ package main
 // C14 correspondence: the real host x plugin configuration matrix.
 
 import (
+	"bytes"
 	"crypto/tls"
+	"encoding/json"
 	"errors"
 	"fmt"
+	"net"
 	"os"
 	"os/exec"
 	"path/filepath"
@@ -23,14 +26,15 @@ type ioCase struct {
 	launch       string
 	pproto, psec string
 	padv         bool
+	pnoauto      bool // the plugin ignores AutoMTLS (drops PLUGIN_CLIENT_CERT before Serve)
 }
 
 func (c *ioCase) line() string {
-	return fmt.Sprintf("C14 allowed=%s sec=%s mux=%s launch=%s pproto=%s psec=%s padv=%s", c.allowed, c.sec, b01(c.mux), c.launch, c.pproto, c.psec, b01(c.padv))
+	return fmt.Sprintf("C14 allowed=%s sec=%s mux=%s launch=%s pproto=%s psec=%s padv=%s pnoauto=%s", c.allowed, c.sec, b01(c.mux), c.launch, c.pproto, c.psec, b01(c.padv), b01(c.pnoauto))
 }
 
 func ioCaseFromLine(m map[string]string) *ioCase {
-	return &ioCase{m["allowed"], m["sec"], m["mux"] == "1", m["launch"], m["pproto"], m["psec"], m["padv"] == "1"}
+	return &ioCase{m["allowed"], m["sec"], m["mux"] == "1", m["launch"], m["pproto"], m["psec"], m["padv"] == "1", m["pnoauto"] == "1"}
 }
 
 var c14Cert, c14Key string
@@ -41,12 +45,18 @@ func runIoCase(c *ioCase) (impl, pred string) {
 	base := filepath.Join(work, fmt.Sprintf("c14-%d-%d", os.Getpid(), atomic.AddInt64(&c14Seq, 1)))
 	os.MkdirAll(base, 0o755)
 	defer os.RemoveAll(base)
-	kc := kitServeCfg{Sets: map[string]string{"3": c.pproto}, GRPCServer: c.pproto == "grpc", NoMuxAdvert: !c.padv}
+	kc := kitServeCfg{Sets: map[string]string{"3": c.pproto}, GRPCServer: c.pproto == "grpc", NoMuxAdvert: !c.padv, NoAutoMTLS: c.pnoauto}
 	if c.psec == "static" {
 		kc.TLS, kc.CertPEM, kc.KeyPEM = "static", c14Cert, c14Key
 	}
 	cmd := kitCmd(kc, "TMPDIR="+base)
-	hostSets := kitHostSets(map[int]string{3: c.pproto}, nil, nil)
+	hostProto := c.pproto
+	if c.pproto == "legacy" {
+		// a plugin from before the protocol field: four-field line, net/rpc
+		cmd.Args = []string{cmd.Args[0], "plugin", "legacy"}
+		hostProto = "netrpc"
+	}
+	hostSets := kitHostSets(map[int]string{3: hostProto}, nil, nil)
 	cfg := &plugin.ClientConfig{
 		HandshakeConfig:     kitHandshake(),
 		VersionedPlugins:    hostSets,
@@ -96,6 +106,11 @@ func runIoCase(c *ioCase) (impl, pred string) {
 	}
 	client := plugin.NewClient(cfg)
 	pred = "ok"
+	// Transport security the host asked for and that applies to this launch (Reattach documents that
+	// AutoMTLS does not apply), and whether the plugin's listener is plaintext — both known from the
+	// configuration alone, independent of anything the library reports.
+	hostWantsTLS := c.sec == "static" || (c.sec == "auto" && c.launch != "reattach")
+	pluginPlaintext := c.psec != "static" && !(c.sec == "auto" && c.launch != "reattach" && !c.pnoauto)
 	var startErr error
 	_, hung, pp := withTimeout(15*time.Second, func() error { _, startErr = client.Start(); return nil })
 	pid := 0
@@ -137,6 +152,10 @@ func runIoCase(c *ioCase) (impl, pred string) {
 		if !okp {
 			pred = "FAIL:protocol-outside-allowed-list"
 		}
+	}
+	// an AutoMTLS host holds a TLS configuration once Start has returned, whatever the plugin answered
+	if c.sec == "auto" && c.launch != "reattach" && client.VerifTLSConfig() == nil && pred == "ok" {
+		pred = "FAIL:automtls-host-without-tls-config-after-start"
 	}
 	// first use: connect, dispense, call, brokered callback, ping; unknown plugin name must be an error
 	var useErr error
@@ -184,12 +203,59 @@ func runIoCase(c *ioCase) (impl, pred string) {
 	case useErr != nil:
 		return "firstuse", pred
 	}
+	if hostWantsTLS && pluginPlaintext {
+		// every step of the session completed against a plaintext listener although the host asked for TLS
+		return "downgraded", "FAIL:silent-downgrade-to-plaintext"
+	}
 	return "works", pred
 }
 
-var _ = tls.VersionTLS12
+// pluginLegacy is a plugin built against a go-plugin from before the protocol field existed: it
+// serves net/rpc (the library's own RPCServer) on a unix socket and announces itself with the
+// four-field line CORE|APP|NETWORK|ADDR.  It knows neither AutoMTLS nor multiplexing; a static
+// TLS provider (cfg.TLS) wraps its listener.
+func pluginLegacy(args []string) {
+	var cfg kitServeCfg
+	if err := json.Unmarshal([]byte(os.Getenv("GPV_PLUGIN_CFG")), &cfg); err != nil {
+		fmt.Fprintln(os.Stderr, "gpv plugin legacy: bad GPV_PLUGIN_CFG:", err)
+		os.Exit(2)
+	}
+	if os.Getenv(cfg.CookieKey) != cfg.CookieVal {
+		os.Exit(1)
+	}
+	dir, err := os.MkdirTemp("", "legacy")
+	if err != nil {
+		fmt.Fprintln(os.Stderr, "gpv plugin legacy:", err)
+		os.Exit(2)
+	}
+	defer os.RemoveAll(dir)
+	path := filepath.Join(dir, "s")
+	var lis net.Listener
+	if lis, err = net.Listen("unix", path); err != nil {
+		fmt.Fprintln(os.Stderr, "gpv plugin legacy:", err)
+		os.Exit(2)
+	}
+	if cfg.TLS == "static" {
+		tc, err := staticTLS(cfg.CertPEM, cfg.KeyPEM)
+		if err != nil {
+			os.Exit(2)
+		}
+		lis = tls.NewListener(lis, tc)
+	}
+	doneCh := make(chan struct{})
+	srv := &plugin.RPCServer{
+		Plugins: map[string]plugin.Plugin{"kit": &kitPlugin{tag: 3}},
+		Stdout:  new(bytes.Buffer), Stderr: new(bytes.Buffer), DoneCh: doneCh,
+	}
+	fmt.Fprintf(os.Stdout, "%d|3|unix|%s\n", plugin.CoreProtocolVersion, path)
+	os.Stdout.Sync()
+	go srv.Serve(lis)
+	<-doneCh
+	lis.Close()
+}
 
 func init() {
+	registerPlugin("legacy", pluginLegacy)
 	register("C14", func(o *out, replay string) {
 		c14Cert, c14Key = genStaticCert()
 		if replay != "" {
@@ -208,9 +274,23 @@ func init() {
 						for _, pp := range []string{"netrpc", "grpc"} {
 							for _, ps := range []string{"none", "static"} {
 								for _, pa := range []bool{true, false} {
-									all = append(all, &ioCase{a, s, m, l, pp, ps, pa})
+									for _, pn := range []bool{false, true} {
+										all = append(all, &ioCase{a, s, m, l, pp, ps, pa, pn})
+									}
 								}
 							}
+						}
+					}
+				}
+			}
+		}
+		// the legacy-line plugin: every host configuration x {no TLS, static TLS provider}
+		for _, a := range []string{"dflt", "grpc", "both"} {
+			for _, s := range []string{"none", "static", "auto"} {
+				for _, m := range []bool{false, true} {
+					for _, l := range []string{"cmd", "runner", "reattach"} {
+						for _, ps := range []string{"none", "static"} {
+							all = append(all, &ioCase{a, s, m, l, "legacy", ps, false, true})
 						}
 					}
 				}
